@@ -6,34 +6,16 @@ import Lc3V.Lemmas.OsPutsp
 namespace Lc3V.Rt
 open Lc3V Sim SimM SimInstr C11 C10
 
-/-- **HALT contract at the fetch-execute level (real traps).** A `TRAP x25` fetched and executed with real traps enabled
-    enters the OS routine, whose first two instructions clear the MCR bit -/
-theorem halt_step (s : Sim) (hos : OsLoaded s) (hs : s.flags.strict = false) (hrt : s.flags.realTraps = true)
-    (hat : AtTrap s 0x25)
+/-- **HALT contract (real traps)**, the name used by C12 -/
+theorem halt_step {Q : DevHandler → Prop} (QS : QuietSet Q) (s : Sim) (q_s : Q s.dev) (hos : OsLoaded s) (hs : s.flags.strict = false)
+    (hrt : s.flags.realTraps = true) (hat : AtTrap s 0x25)
     (h1 : 767 ≤ (entrySp s - 1).toNat ∧ (entrySp s - 1).toNat < IO_START)
     (h2 : 767 ≤ (entrySp s - 2).toNat ∧ (entrySp s - 2).toNat < IO_START)
     (hm : s.iregLookup 0xFFFE = some .mcr) :
     ∃ f, feN 3 s = (.ok (), f) ∧ f.mcr = false ∧
       (∀ r, r ≠ 7 → r ≠ R6 → f.reg r = s.reg r) ∧ f.dev = s.dev ∧
-      (∀ a : W, a.toNat < IO_START → a ≠ entrySp s - 1 → a ≠ entrySp s - 2 → f.memAt a = s.memAt a) := by
-  obtain ⟨w, hw⟩ := Option.isSome_iff_exists.mp vec_defined_20_25.2.2
-  obtain ⟨x, hx, inx, xpc, m2, m1, mo, r6, ro, xprio, hss, hfn, hd, hf, hir, hmcr⟩ :=
-    trap_step_os s 0x25 w hos hs hat.perm hat.plain hat.instr h1 h2 (Or.inr hrt) hw
-  obtain ⟨f, hf2, fm, fr, fmem, fdev⟩ := halt_contract x inx.os inx.nonstrict inx.sup (by rw [xpc]; exact vec_word hw)
-    (by unfold iregLookup; rw [hir]; exact hm)
-  refine ⟨f, ?_, fm, ?_, by rw [fdev, hd], ?_⟩
-  · rw [feN_succ 2 hx]
-    have : (fetchExec >>= fun _ => fetchExec) x = feN 2 x := by
-      show _ = (fetchExec >>= fun _ => (fetchExec >>= fun _ => (Pure.pure () : SimM Unit))) x
-      simp only [bind_apply, pure_apply]
-      rcases fetchExec x with ⟨_ | _, u⟩
-      · rfl
-      · simp only
-        rcases fetchExec u with ⟨_ | _, v⟩ <;> rfl
-    rw [← this]; exact hf2
-  · intro r h7 h6; rw [fr r h7, ro r h6]
-  · intro a ha n1 n2
-    rw [fmem a (by intro e; rw [e] at ha; unfold IO_START at ha; simp at ha), mo a n1 n2]
+      (∀ a : W, a.toNat < IO_START → a ≠ entrySp s - 1 → a ≠ entrySp s - 2 → f.memAt a = s.memAt a) :=
+  halt_trap QS s q_s hos hs hrt hat h1 h2 hm
 
 theorem chkMsg_spec {a : Nat} {msg : String} {last : SimInstr} (h : chkMsg a msg last = true) :
     ∃ op, dec a = some (.lea 0 op) ∧ dec (a + 1) = some (.trap 0x22) ∧ dec (a + 2) = some last ∧
@@ -54,7 +36,7 @@ def chkMsgTerm (a n : Nat) : Bool :=
 /-- **exception / bad-trap handler contract.** From the entry of a handler whose checked listing is
     `LEA R0,msg ; PUTS ; HALT`, with real traps enabled: the display receives exactly the words of `msg` and the MCR
     bit is cleared -/
-theorem msg_handler (x : Sim) (a : Nat) (msg : String) (d' : DevHandler) (hx : InOs x)
+theorem msg_handler {Q : DevHandler → Prop} (QS : QuietSet Q) (x : Sim) (q_x : Q x.dev) (a : Nat) (msg : String) (d' : DevHandler) (hx : InOs x)
     (hrt : x.flags.realTraps = true) (hpc : x.pc = BitVec.ofNat 16 a)
     (hchk : chkMsg a msg (.trap 0x25) = true) (hterm : chkMsgTerm a (C11.str msg).length = true)
     (hlen : (C11.str msg).length < 64)
@@ -69,7 +51,7 @@ theorem msg_handler (x : Sim) (a : Nat) (msg : String) (d' : DevHandler) (hx : I
     unfold chkMsgTerm at hterm; rw [i0] at hterm; simpa using hterm
   -- LEA R0, msg
   obtain ⟨hd0, l0⟩ := hx.os.decode i0 hpc
-  obtain ⟨t1, f1, pc1, r01, ro1, psr1, dev1, ctl1, mem1⟩ := step_lea x 0 op hx.nonstrict hx.sup
+  obtain ⟨t1, f1, pc1, r01, ro1, psr1, dev1, ctl1, mem1, q_t1⟩ := step_lea QS x q_x 0 op hx.nonstrict hx.sup
     (by unfold IO_START; omega) hd0
   have sup1 : PSR.privileged t1.psr = true := by rw [psr1]; exact hx.sup
   have in1 : InOs t1 := hx.step (fun a _ => by rw [Sim.memAt, mem1]) ctl1 sup1
@@ -83,7 +65,7 @@ theorem msg_handler (x : Sim) (a : Nat) (msg : String) (d' : DevHandler) (hx : I
     intro n hn; rw [BitVec.toNat_ofNat]; omega
   -- TRAP x22 (PUTS the message)
   obtain ⟨hd1, l1⟩ := in1.os.decode i1 hpc1
-  obtain ⟨kp, g1, fg1, ret1, gdev1⟩ := puts_trap t1 ((C11.str msg).map (BitVec.ofNat 16)) d' in1.os in1.nonstrict
+  obtain ⟨kp, g1, fg1, ret1, gdev1, q_g1⟩ := puts_trap QS t1 q_t1 ((C11.str msg).map (BitVec.ofNat 16)) d' in1.os in1.nonstrict
     ⟨Or.inl (priv_ctx sup1), by unfold IO_START; omega, hd1⟩
     (by rw [esp1]; exact h1) (by rw [esp1]; exact h2) (by rw [esp1]; exact ⟨k1', k2', k3', k4', k5'⟩)
     (by rw [lk1]; exact l4) (by rw [lk1]; exact l6)
@@ -111,7 +93,7 @@ theorem msg_handler (x : Sim) (a : Nat) (msg : String) (d' : DevHandler) (hx : I
   have hpcg1 : g1.pc = BitVec.ofNat 16 (a + 2) := by rw [ret1.pc, hpc1, ofNat_succ]
   -- TRAP x25 (HALT)
   obtain ⟨hd2, l2⟩ := ing1.os.decode i2 hpcg1
-  obtain ⟨f, ff, fm, fr, fdev, _⟩ := halt_step g1 ing1.os ing1.nonstrict
+  obtain ⟨f, ff, fm, fr, fdev, _⟩ := halt_step QS g1 q_g1 ing1.os ing1.nonstrict
     (by rw [ret1.flags]; have := congrArg (·.1) ctl1; simp only [Rt.ctl] at this; rw [this]; exact hrt)
     ⟨Or.inl (priv_ctx ing1.sup), by unfold IO_START; omega, hd2⟩
     (by rw [espg1]; exact h1) (by rw [espg1]; exact h2)
@@ -154,7 +136,7 @@ theorem entry_os_real (s : Sim) (vect : Nat) (w : W) (hos : OsLoaded s) (hs : s.
 /-- **an exception under real traps prints its message and halts.** From the state `s` in which the inner step failed
     with an exception whose OS vector is `vect` (so that `step` re-enters `handle_interrupt` there), with the handler
     listing `LEA R0,msg ; PUTS ; HALT` checked on the image: the display receives exactly `msg`, the MCR bit is cleared -/
-theorem exception_prints (s : Sim) (vect : Nat) (msg : String) (d' : DevHandler) (hos : OsLoaded s)
+theorem exception_prints {Q : DevHandler → Prop} (QS : QuietSet Q) (s : Sim) (q_s : Q s.dev) (vect : Nat) (msg : String) (d' : DevHandler) (hos : OsLoaded s)
     (hs : s.flags.strict = false) (hrt : s.flags.realTraps = true)
     (hvd : (osWord vect).isSome = true)
     (hchk : chkMsg (vec vect) msg (.trap 0x25) = true) (hterm : chkMsgTerm (vec vect) (C11.str msg).length = true)
@@ -171,7 +153,7 @@ theorem exception_prints (s : Sim) (vect : Nat) (msg : String) (d' : DevHandler)
   obtain ⟨w, hw⟩ := Option.isSome_iff_exists.mp hvd
   obtain ⟨x, hx, inx, xpc, r6, ro, hd, hf, hir, hmcr, mo⟩ := entry_os_real s vect w hos hs hrt h1 h2 hw
   have lk : ∀ a, x.iregLookup a = s.iregLookup a := by intro a; unfold iregLookup; rw [hir]
-  obtain ⟨k, f, ff, fm, fdev, fr⟩ := msg_handler x (vec vect) msg d' inx (by rw [hf]; exact hrt)
+  obtain ⟨k, f, ff, fm, fdev, fr⟩ := msg_handler QS x (by rw [hd]; exact q_s) (vec vect) msg d' inx (by rw [hf]; exact hrt)
     (by rw [xpc]; exact vec_word hw) hchk hterm hlen
     (by rw [r6, sub21]; exact h3) (by rw [r6, sub22]; exact h4) (by rw [r6, sub22]; exact hc)
     (by rw [lk]; exact l4) (by rw [lk]; exact l6) (by rw [lk]; exact lm) (by rw [hd]; exact hem)
